@@ -8,6 +8,10 @@
 //! 64 MiB + 4096*input_len (`huge_alloc`), and - because the mutants of a case are executed in a forked child with its
 //! own address-space and CPU limits - abort / SIGSEGV / SIGBUS / SIGILL / CPU limit, attributed to exactly one mutant
 //! (BEGIN markers over a pipe); the batch resumes after a death. `Ok(anything)` and `Err` are both `held`.
+//! Large-input families `huge_trunc` / `huge_field` (1 case each per target at quick tier): valid encodings of 65 551 .. 1 048 577 payload bytes or
+//! 65 537 .. 200 000 elements (shapes: dominant symbol, all-equal, > 1000:1 compressible runs / short periods, X c X d, small-alphabet random; hand-built
+//! extreme-ratio LZ / PA-Zip / match streams where the real compressor is super-linear), truncated at and around every 64 KiB chunk boundary, at 2^20 +- 1
+//! and near the end, substituted at the chunk boundaries, extended by a whole extra chunk; header / count / length fields maximised, +-1 and +65536.
 //! Set ZV_C15_INPROC=1 to run everything in-process (the worker itself is sacrificial then).
 use crate::ctx::{self, catch, Case, Ctx, Fail, Res};
 use crate::gen;
@@ -51,9 +55,26 @@ fn sh(mut t: Tgt, share: usize) -> Tgt { t.share = share; t }
 
 // ---------------------------------------------------------------------------------------------
 // payload generators
-fn payload(r: &mut Rng, n: usize) -> (String, Vec<u8>) { let k = r.below(gen::BYTE_KINDS as u64) as u32; (format!("{}:{}", gen::byte_kind_name(k), n), gen::bytes_kind(r, k, n)) }
+// ---- large-input mode (families `huge_*`): the makers lift their size clamps and the payload generators produce the shapes below
+thread_local! { static HUGE_MODE: std::cell::Cell<Option<u32>> = const { std::cell::Cell::new(None) }; }
+fn huge() -> Option<u32> { HUGE_MODE.with(|h| h.get()) }
+/// element / byte count: `n` in large-input mode, else the small-scope clamp
+fn lim(n: usize, small: usize) -> usize { if huge().is_some() { n } else { n.min(small) } }
+const HUGE_SHAPES: [&str; 5] = ["dominant_symbol", "all_equal", "long_runs_short_periods", "XcXd", "small_alphabet_random"];
+/// shapes at sizes > 64 KiB: one dominant symbol (60-99 %, count > 65535), all-equal, > 1000:1 compressible, X c X d with |X| ~ n/2, random
+fn shaped(r: &mut Rng, shape: u32, n: usize) -> Vec<u8> {
+    match shape % 5 {
+        0 => { let d = r.next() as u8; let pct = 60 + r.below(40); let an = 1 + r.usize_below(12); let alpha = r.bytes(an); (0..n).map(|_| if r.below(100) < pct { d } else { *r.pick(&alpha) }).collect() }
+        1 => vec![r.next() as u8; n],
+        2 => { let mut out = Vec::with_capacity(n); while out.len() < n { if r.bool() { let b = r.next() as u8; let l = 4096 + r.usize_below(70000); for _ in 0..l { if out.len() < n { out.push(b); } } } else { let pn = 1 + r.usize_below(4); let p = r.bytes(pn); let l = 4096 + r.usize_below(70000); for i in 0..l { if out.len() < n { out.push(p[i % p.len()]); } } } } out }
+        3 => { let h = n.saturating_sub(2) / 2; let a = r.bytes(16); let x: Vec<u8> = (0..h).map(|_| *r.pick(&a)).collect(); let mut out = x.clone(); out.push(b'c'); out.extend_from_slice(&x); out.push(b'd'); while out.len() < n { out.push(b'e'); } out.truncate(n.max(1)); out }
+        _ => { let an = 2 + r.usize_below(30); let a = r.bytes(an); (0..n).map(|_| *r.pick(&a)).collect() }
+    }
+}
+fn huge_payload(r: &mut Rng, n: usize) -> Option<(String, Vec<u8>)> { huge().map(|sh| (format!("{}:{}", HUGE_SHAPES[(sh % 5) as usize], n), shaped(r, sh, n))) }
+fn payload(r: &mut Rng, n: usize) -> (String, Vec<u8>) { if let Some(x) = huge_payload(r, n) { return x; } let k = r.below(gen::BYTE_KINDS as u64) as u32; (format!("{}:{}", gen::byte_kind_name(k), n), gen::bytes_kind(r, k, n)) }
 /// payload with repeated substrings (dictionary / LZ style targets need matches)
-fn rep_payload(r: &mut Rng, n: usize) -> (String, Vec<u8>) { let k = *r.pick(&[10u32, 8, 9, 5, 1, 3]); (format!("{}:{}", gen::byte_kind_name(k), n), gen::bytes_kind(r, k, n)) }
+fn rep_payload(r: &mut Rng, n: usize) -> (String, Vec<u8>) { if let Some(x) = huge_payload(r, n) { return x; } let k = *r.pick(&[10u32, 8, 9, 5, 1, 3]); (format!("{}:{}", gen::byte_kind_name(k), n), gen::bytes_kind(r, k, n)) }
 fn freqs(p: &[u8]) -> [u32; 256] { let mut f = [0u32; 256]; for &b in p { f[b as usize] += 1; } f }
 
 // ---------------------------------------------------------------------------------------------
@@ -76,7 +97,7 @@ fn mk_huff_decode(r: &mut Rng, n: usize) -> MkRes {
 }
 fn order_of(o: u8) -> HuffmanOrder { match o { 0 => HuffmanOrder::Order0, 1 => HuffmanOrder::Order1, _ => HuffmanOrder::Order2 } }
 /// small alphabets keep the number of context trees (and the serialised size) manageable
-fn ctx_payload(r: &mut Rng, n: usize) -> (String, Vec<u8>) { let k = *r.pick(&[3u32, 4, 1, 8, 6, 0]); let n = n.max(2); (format!("{}:{}", gen::byte_kind_name(k), n), gen::bytes_kind(r, k, n)) }
+fn ctx_payload(r: &mut Rng, n: usize) -> (String, Vec<u8>) { if let Some(x) = huge_payload(r, n) { return x; } let k = *r.pick(&[3u32, 4, 1, 8, 6, 0]); let n = n.max(2); (format!("{}:{}", gen::byte_kind_name(k), n), gen::bytes_kind(r, k, n)) }
 fn mk_ctxhuff_deser(r: &mut Rng, n: usize, o: u8) -> MkRes {
     let (k, p) = ctx_payload(r, n); let enc = ContextualHuffmanEncoder::new(&p, order_of(o)).map_err(e2s)?; let bytes = enc.serialize(); let probe = r.bytes(6);
     valid(bytes, 0, k, Box::new(move |b, _| match ContextualHuffmanEncoder::deserialize(b) { Ok(e) => { let _ = e.order(); let _ = e.tree_count(); let d = ContextualHuffmanDecoder::new(e); let _ = d.decode(&probe, 5); Ok(true) } Err(_) => Ok(false) }))
@@ -102,25 +123,62 @@ fn mk_fse_fn(r: &mut Rng, n: usize) -> MkRes {
     let (k, p) = payload(r, n.max(1)); let bytes = zipora::entropy::fse::fse_compress(&p).map_err(e2s)?;
     valid(bytes, 0, k, Box::new(move |b, _| { let a = fse_decompress(b).is_ok(); let c = fse_unzip(b).is_ok(); Ok(a || c) }))
 }
+/// hand-built flag/offset/length stream (format of DictionaryCompressor::compress) that expands to >= `out` bytes with matches <= 258:
+/// an extreme-ratio but valid encoding (the real compressor is O(n * 32 KiB) and cannot be run on > 64 KiB payloads within the budget)
+fn lz_stream(r: &mut Rng, out: usize) -> Vec<u8> {
+    let mut s = Vec::new(); let mut produced = 0usize;
+    while produced < out {
+        if produced == 0 || r.chance(1, 40) { for _ in 0..1 + r.usize_below(8) { s.push(0); s.push(r.next() as u8); produced += 1; } }
+        else { let off = 1 + r.usize_below(produced.min(32768)); let len = if r.chance(3, 4) { 258 } else { 3 + r.usize_below(256) }; s.push(1); s.extend_from_slice(&(off as u32).to_le_bytes()); s.extend_from_slice(&(len as u32).to_le_bytes()); produced += len; }
+    }
+    s
+}
 fn mk_dict_deser(r: &mut Rng, n: usize) -> MkRes {
+    if huge().is_some() { // > 65536 entries, built directly (DictionaryBuilder is quadratic-ish on large training data)
+        let cnt = n.min(100_003); let mut d = Dictionary::new(); for i in 0..cnt as u32 { let mut seq = i.to_le_bytes().to_vec(); seq.push(r.next() as u8); d.insert(seq, zipora::entropy::dictionary::DictionaryEntry::new(i, 5)); }
+        let bytes = d.serialize(); return valid(bytes, 0, format!("entries={cnt}"), Box::new(move |b, _| match Dictionary::deserialize(b) { Ok(d) => { let _ = d.len(); let _ = d.get(b"the"); Ok(true) } Err(_) => Ok(false) }));
+    }
     let (k, p) = rep_payload(r, n.max(8)); let d = DictionaryBuilder::new().min_match_length(3).build(&p); let bytes = d.serialize();
     valid(bytes, 0, format!("{k} entries={}", d.len()), Box::new(move |b, _| match Dictionary::deserialize(b) { Ok(d) => { let _ = d.len(); let _ = d.get(b"the"); Ok(true) } Err(_) => Ok(false) }))
 }
 fn mk_dict_decompress(r: &mut Rng, n: usize) -> MkRes {
+    if huge().is_some() { let (_, p) = rep_payload(r, 300); let c = DictionaryCompressor::new(DictionaryBuilder::new().build(&p)); let bytes = lz_stream(r, n); return valid(bytes, 0, format!("hand-built LZ stream expanding to >= {n}"), Box::new(move |b, _| ok(c.decompress(b)))); }
     let (k, p) = rep_payload(r, n.max(1)); let d = DictionaryBuilder::new().build(&p); let c = DictionaryCompressor::new(d); let bytes = c.compress(&p).map_err(e2s)?;
     valid(bytes, 0, k, Box::new(move |b, _| ok(c.decompress(b))))
 }
 fn mk_optdict_decompress(r: &mut Rng, n: usize) -> MkRes {
+    if huge().is_some() { let (_, p) = rep_payload(r, 600); let c = OptimizedDictionaryCompressor::new(&p).map_err(e2s)?; let bytes = lz_stream(r, n); return valid(bytes, 0, format!("hand-built LZ stream expanding to >= {n}"), Box::new(move |b, _| ok(c.decompress(b)))); }
     let (k, p) = rep_payload(r, n.max(4)); let c = OptimizedDictionaryCompressor::new(&p).map_err(e2s)?; let bytes = c.compress(&p).map_err(e2s)?;
     valid(bytes, 0, k, Box::new(move |b, _| ok(c.decompress(b))))
 }
 fn mk_cf(r: &mut Rng, n: usize, alg: Algorithm) -> MkRes {
     let (k, p) = if matches!(alg, Algorithm::Dictionary | Algorithm::Hybrid) { rep_payload(r, n.max(1)) } else { payload(r, n.max(1)) };
+    if huge().is_some() && matches!(alg, Algorithm::Dictionary | Algorithm::Hybrid) { // training / compress are O(n * window): train on a prefix, hand-built stream
+        let c = CompressorFactory::create(alg, Some(&p[..p.len().min(300)])).map_err(e2s)?; let mut bytes = if matches!(alg, Algorithm::Hybrid) { vec![2u8] } else { vec![] }; bytes.extend_from_slice(&lz_stream(r, n));
+        return valid(bytes, 0, format!("hand-built LZ stream expanding to >= {n}"), Box::new(move |b, _| ok(c.decompress(b))));
+    }
     let c = CompressorFactory::create(alg, Some(&p)).map_err(e2s)?;
     let (bytes, note) = match c.compress(&p) { Ok(z) => (z, ""), Err(_) => (p.clone(), " (compress unsupported: raw payload used as base)") };
     valid(bytes, 0, format!("{k}{note}"), Box::new(move |b, _| ok(c.decompress(b))))
 }
+/// PA-Zip match stream whose declared output is >= `out` bytes (SimdLz77Compressor::compress needs minutes of CPU on > 64 KiB payloads)
+fn big_match_stream(r: &mut Rng, out: usize) -> Result<Vec<u8>, String> {
+    let mut ms = Vec::new(); let mut total = 0usize;
+    while total < out { let m = if r.chance(1, 60) { ct::Match::far2_long(1 + r.below(60000) as u16, 34 + r.below(65000) as u16).unwrap_or(ct::Match::Literal { length: 1 }) } else { let m = rand_match(r); if m.length() > 1000 && !r.chance(1, 50) { continue; } m }; total += m.length(); ms.push(m); }
+    Ok(ct::encode_matches(&ms).map_err(e2s)?.0)
+}
 fn mk_simdlz77(r: &mut Rng, n: usize, which: u8) -> MkRes {
+    if huge().is_some() {
+        let bytes = big_match_stream(r, n)?; let k = format!("hand-built match stream declaring >= {n} output bytes");
+        return match which {
+            0..=3 => { let cfg = match which { 0 => SimdLz77Config::default(), 1 => SimdLz77Config::high_performance(), 2 => SimdLz77Config::low_latency(), _ => SimdLz77Config::maximum_parallelism() }; let mut c = SimdLz77Compressor::with_config(cfg).map_err(e2s)?; valid(bytes, 0, k, Box::new(move |b, _| ok(c.decompress(b)))) }
+            4 => { let mut c = SimdLz77CompressorX1::new().map_err(e2s)?; valid(bytes, 0, k, Box::new(move |b, _| ok(c.decompress(b)))) }
+            5 => { let mut c = SimdLz77CompressorX2::new().map_err(e2s)?; valid(bytes, 0, k, Box::new(move |b, _| ok(c.decompress(b)))) }
+            6 => { let mut c = SimdLz77CompressorX4::new().map_err(e2s)?; valid(bytes, 0, k, Box::new(move |b, _| ok(c.decompress(b)))) }
+            7 => { let mut c = SimdLz77CompressorX8::new().map_err(e2s)?; valid(bytes, 0, k, Box::new(move |b, _| ok(c.decompress(b)))) }
+            _ => valid(bytes, 0, k, Box::new(move |b, _| ok(decompress_with_simd_lz77(b)))),
+        };
+    }
     let (k, p) = rep_payload(r, n.max(1));
     match which {
         0..=3 => { let cfg = match which { 0 => SimdLz77Config::default(), 1 => SimdLz77Config::high_performance(), 2 => SimdLz77Config::low_latency(), _ => SimdLz77Config::maximum_parallelism() };
@@ -134,10 +192,31 @@ fn mk_simdlz77(r: &mut Rng, n: usize, which: u8) -> MkRes {
 }
 fn pazip_cfg(which: u8) -> PaZipCompressorConfig { match which { 0 => PaZipCompressorConfig::balanced(), 1 => PaZipCompressorConfig::fast_compression(), 2 => PaZipCompressorConfig::high_compression(), 3 => PaZipCompressorConfig::realtime(), _ => PaZipCompressorConfig::reference_compliant() } }
 fn sa_dict(train: &[u8]) -> Result<SuffixArrayDictionary, String> {
-    let dc = DictionaryBuilderConfig { target_dict_size: 2048, max_dict_size: 4096, validate_result: true, ..Default::default() };
+    let (tds, mds) = if huge().is_some() { (train.len().max(2048), train.len().max(2048) * 2) } else { (2048, 4096) };
+    let dc = DictionaryBuilderConfig { target_dict_size: tds, max_dict_size: mds, validate_result: true, ..Default::default() };
     SaDictBuilder::with_config(dc).build(train).map_err(e2s)
 }
+/// byte-oriented PA-Zip stream (layout read by PaZipCompressor::decompress) producing >= `out` bytes: literal runs, RLE, short and
+/// 16-bit-length back references (PaZipCompressor::compress needs > 60 s CPU on > 64 KiB payloads)
+fn pazip_stream(r: &mut Rng, out: usize) -> Vec<u8> {
+    let mut s = Vec::new(); let mut produced = 0usize;
+    while produced < out {
+        match if produced < 300 { 0 } else { r.below(6) } {
+            0 | 1 => { let l = 1 + r.usize_below(255); s.push(0); s.push(l as u8); s.extend(r.bytes(l)); produced += l; }
+            2 => { let l = r.usize_below(256); s.extend_from_slice(&[2, r.next() as u8, l as u8]); produced += l; }
+            3 => { let d = 1 + r.usize_below(produced.min(255)); let l = r.usize_below(256); s.extend_from_slice(&[4, d as u8, l as u8]); produced += l; }
+            4 => { let d = 1 + r.usize_below(produced.min(65535)); let l = r.usize_below(256); s.push(5); s.extend_from_slice(&(d as u16).to_le_bytes()); s.push(l as u8); produced += l; }
+            _ => { let d = 1 + r.usize_below(produced.min(65535)); let l = 256 + r.usize_below(65280); s.push(6); s.extend_from_slice(&(d as u16).to_le_bytes()); s.extend_from_slice(&(l as u16).to_le_bytes()); produced += l; }
+        }
+    }
+    s
+}
 fn mk_pazip(r: &mut Rng, n: usize, which: u8) -> MkRes {
+    if huge().is_some() {
+        let mut train = b"the quick brown fox jumps over the lazy dog. the quick brown fox jumps again. ".to_vec(); train.extend(shaped(r, 4, 300));
+        let dict = sa_dict(&train[..train.len().min(400)])?; let pool = SecureMemoryPool::new(SecurePoolConfig::new(4096, 1024, 8)).map_err(e2s)?; let mut c = PaZipCompressor::new(dict, pazip_cfg(which), pool).map_err(e2s)?;
+        let z = pazip_stream(r, n); return valid(z, 0, format!("hand-built PA-Zip stream producing >= {n} bytes"), Box::new(move |b, _| { let mut out = Vec::new(); ok(c.decompress(b, &mut out)) }));
+    }
     let (k, p) = rep_payload(r, n.max(1)); let mut train = b"the quick brown fox jumps over the lazy dog. the quick brown fox jumps again. ".to_vec(); train.extend_from_slice(&p);
     let dict = sa_dict(&train)?; let pool = SecureMemoryPool::new(SecurePoolConfig::new(4096, 1024, 8)).map_err(e2s)?;
     let mut c = PaZipCompressor::new(dict, pazip_cfg(which), pool).map_err(e2s)?; let mut z = Vec::new(); c.compress(&p, &mut z).map_err(e2s)?;
@@ -153,7 +232,7 @@ fn rand_match(r: &mut Rng) -> ct::Match {
     m.unwrap_or(ct::Match::Literal { length: 1 })
 }
 fn mk_decode_matches(r: &mut Rng, n: usize) -> MkRes {
-    let cnt = 1 + n.min(40) / 2; let ms: Vec<ct::Match> = (0..cnt).map(|_| rand_match(r)).collect(); let (bytes, _) = ct::encode_matches(&ms).map_err(e2s)?;
+    let cnt = 1 + lim(n, 40) / 2; let ms: Vec<ct::Match> = (0..cnt).map(|_| rand_match(r)).collect(); let (bytes, _) = ct::encode_matches(&ms).map_err(e2s)?;
     valid(bytes, 0, format!("matches:{cnt}"), Box::new(move |b, _| {
         let a = ct::decode_matches(b).is_ok();
         let mut rd = ct::BitReader::new(b); let mut k = 0; while rd.has_bits(3) && k < 100_000 { if ct::decode_match(&mut rd).is_err() { break; } k += 1; }
@@ -178,7 +257,7 @@ fn mk_zipoffset(r: &mut Rng, n: usize) -> MkRes {
     valid(bytes, 0, format!("hand-built file: saved header + content {k}"), Box::new(move |b, _| match ZipOffsetBlobStore::load_from_reader(&mut Cursor::new(b)) { Ok(s) => { let _ = s.len(); let _ = s.memory_usage(); let _ = s.get(0); Ok(true) } Err(_) => Ok(false) }))
 }
 fn mk_reorder(r: &mut Rng, n: usize) -> MkRes {
-    let path = tmp_path("reorder"); let sign: i64 = if r.bool() { 1 } else { -1 }; let cnt = n.min(400);
+    let path = tmp_path("reorder"); let sign: i64 = if r.bool() { 1 } else { -1 }; let cnt = lim(n, 400);
     let mut vals: Vec<usize> = Vec::new(); while vals.len() < cnt { let start = 1000 + r.below(1 << 38) as usize; let run = if r.bool() { 1 } else { 1 + r.usize_below(9) }; for i in 0..run { if vals.len() < cnt { vals.push(if sign > 0 { start + i } else { start - i }); } } }
     let mut b = ZReorderMapBuilder::new(&path, vals.len(), sign).map_err(e2s)?; for &v in &vals { b.push(v).map_err(e2s)?; } b.finish().map_err(e2s)?;
     let bytes = std::fs::read(&path).map_err(e2s)?;
@@ -188,7 +267,7 @@ fn mk_reorder(r: &mut Rng, n: usize) -> MkRes {
 }
 const MMAPVEC_HEADER: usize = 80;
 fn mk_mmapvec<T: Copy + 'static>(r: &mut Rng, n: usize, conv: fn(u64) -> T) -> MkRes {
-    let path = tmp_path("mmapvec"); let cnt = n.min(2000);
+    let path = tmp_path("mmapvec"); let cnt = lim(n, 2000);
     { let cfg = MmapVecConfig::builder().with_initial_capacity(cnt.max(1) + r.usize_below(4)).build(); let mut v = MmapVec::<T>::create(&path, cfg).map_err(e2s)?; for _ in 0..cnt { v.push(conv(r.next())).map_err(e2s)?; } v.sync().map_err(e2s)?; }
     let bytes = std::fs::read(&path).map_err(e2s)?; let es = std::mem::size_of::<T>();
     valid(bytes, 0, format!("elems:{cnt} elem_size:{es}"), Box::new(move |b, _| {
@@ -205,40 +284,42 @@ fn mk_mmapvec<T: Copy + 'static>(r: &mut Rng, n: usize, conv: fn(u64) -> T) -> M
 // ---------------------------------------------------------------------------------------------
 // targets: io decoders
 fn mk_varint(r: &mut Rng, n: usize) -> MkRes {
-    let ik = r.below(gen::INT_KINDS as u64) as u32; let vals: Vec<u64> = gen::ints_kind(r, ik, 1 + n.min(64), u64::MAX); let bytes = VarInt::encode_multiple(vals.iter().copied());
+    let ik = r.below(gen::INT_KINDS as u64) as u32; let vals: Vec<u64> = gen::ints_kind(r, ik, 1 + lim(n, 64), u64::MAX); let bytes = VarInt::encode_multiple(vals.iter().copied());
     valid(bytes, 0, format!("values:{}", vals.len()), Box::new(move |b, _| { let a = VarInt::decode(b).is_ok(); let m = VarInt::decode_multiple(b).is_ok(); let s = <VarInt as SignedVarInt>::decode_signed(b).is_ok(); let mut i = SliceDataInput::new(b); let d = i.read_var_int().is_ok(); Ok(a || m || s || d) }))
 }
 fn mk_varint_variant(r: &mut Rng, n: usize, s: VarIntStrategy) -> MkRes {
-    let e = VarIntEncoder::new(s); let ik = r.below(gen::INT_KINDS as u64) as u32; let vals: Vec<u64> = gen::ints_kind(r, ik, 1 + n.min(64), u64::MAX);
+    let e = VarIntEncoder::new(s); let ik = r.below(gen::INT_KINDS as u64) as u32; let mask = if matches!(s, VarIntStrategy::GroupVarint) { u32::MAX as u64 } else { u64::MAX }; /* the group encoder refuses values >= 2^32 */ let vals: Vec<u64> = gen::ints_kind(r, ik, 1 + lim(n, 64), mask);
     let bytes = match e.encode_u64_sequence(&vals) { Ok(b) => b, Err(_) => { let iv: Vec<i64> = vals.iter().map(|&v| v as i64).collect(); e.encode_i64_sequence(&iv).map_err(e2s)? } };
     valid(bytes, 0, format!("values:{}", vals.len()), Box::new(move |b, _| { let a = e.decode_u64(b).is_ok(); let c = e.decode_i64(b).is_ok(); let d = e.decode_u64_sequence(b).is_ok(); let f = e.decode_i64_sequence(b).is_ok(); Ok(a || c || d || f) }))
 }
-fn rstr(r: &mut Rng, max: usize) -> String { let l = r.usize_below(max + 1); (0..l).map(|_| *r.pick(&['a', 'b', 'z', ' ', 'é', '0', '漢'])).collect() }
+/// element string of a large collection: one or two chars in large-input mode
+fn el_str(r: &mut Rng, max: usize) -> String { if huge().is_some() { rstr(r, 2) } else { rstr(r, max) } }
+fn rstr(r: &mut Rng, max: usize) -> String { let l = if huge().is_some() { max } else { r.usize_below(max + 1) }; (0..l).map(|_| *r.pick(&['a', 'b', 'z', ' ', 'é', '0', '漢'])).collect() }
 fn cx_cfg(r: &mut Rng) -> (ComplexTypeConfig, &'static str) { match r.below(5) { 0 => (ComplexTypeConfig::new(), "new"), 1 => (ComplexTypeConfig::safe(), "safe"), 2 => (ComplexTypeConfig::fast(), "fast"), 3 => (ComplexTypeConfig::compact(), "compact"), _ => (ComplexTypeConfig::compatible(), "compatible") } }
 fn mk_complex<T: ComplexSerialize + 'static>(r: &mut Rng, v: T) -> MkRes {
     let (cfg, name) = cx_cfg(r); let ser = ComplexTypeSerializer::new(cfg); let bytes = ser.serialize_to_bytes(&v).map_err(e2s)?;
     valid(bytes, 0, format!("config:{name}"), Box::new(move |b, _| Ok(ser.deserialize_from_bytes::<T>(b).is_ok())))
 }
-fn mk_cx_tuple(r: &mut Rng, n: usize) -> MkRes { let v = (r.next() as u32, rstr(r, n.min(40)), (0..n.min(20)).map(|_| r.next()).collect::<Vec<u64>>()); mk_complex(r, v) }
+fn mk_cx_tuple(r: &mut Rng, n: usize) -> MkRes { let v = (r.next() as u32, rstr(r, lim(n, 40)), (0..lim(n / 8, 20)).map(|_| r.next()).collect::<Vec<u64>>()); mk_complex(r, v) }
 fn mk_cx_array(r: &mut Rng, _n: usize) -> MkRes { let v = [r.next() as u32, 0, u32::MAX, r.next() as u32]; mk_complex(r, v) }
-fn mk_cx_option(r: &mut Rng, n: usize) -> MkRes { let v: Option<Vec<String>> = if r.chance(1, 5) { None } else { Some((0..n.min(12)).map(|_| rstr(r, 12)).collect()) }; mk_complex(r, v) }
-fn mk_cx_result(r: &mut Rng, n: usize) -> MkRes { let v: Result<u32, String> = if r.bool() { Ok(r.next() as u32) } else { Err(rstr(r, n.min(50))) }; mk_complex(r, v) }
-fn mk_cx_hashmap(r: &mut Rng, n: usize) -> MkRes { let v: HashMap<u32, String> = (0..n.min(16)).map(|_| (r.next() as u32, rstr(r, 10))).collect(); mk_complex(r, v) }
-fn mk_cx_hashset(r: &mut Rng, n: usize) -> MkRes { let v: HashSet<u32> = (0..n.min(32)).map(|_| r.next() as u32).collect(); mk_complex(r, v) }
-fn mk_cx_btreemap(r: &mut Rng, n: usize) -> MkRes { let v: BTreeMap<u32, String> = (0..n.min(16)).map(|_| (r.next() as u32, rstr(r, 10))).collect(); mk_complex(r, v) }
-fn mk_cx_btreeset(r: &mut Rng, n: usize) -> MkRes { let v: BTreeSet<u64> = (0..n.min(32)).map(|_| r.next()).collect(); mk_complex(r, v) }
+fn mk_cx_option(r: &mut Rng, n: usize) -> MkRes { let v: Option<Vec<String>> = if r.chance(1, 5) { None } else { Some((0..lim(n, 12)).map(|_| el_str(r, 12)).collect()) }; mk_complex(r, v) }
+fn mk_cx_result(r: &mut Rng, n: usize) -> MkRes { let v: Result<u32, String> = if r.bool() { Ok(r.next() as u32) } else { Err(rstr(r, lim(n, 50))) }; mk_complex(r, v) }
+fn mk_cx_hashmap(r: &mut Rng, n: usize) -> MkRes { let v: HashMap<u32, String> = (0..lim(n, 16)).map(|_| (r.next() as u32, el_str(r, 10))).collect(); mk_complex(r, v) }
+fn mk_cx_hashset(r: &mut Rng, n: usize) -> MkRes { let v: HashSet<u32> = (0..lim(n, 32)).map(|_| r.next() as u32).collect(); mk_complex(r, v) }
+fn mk_cx_btreemap(r: &mut Rng, n: usize) -> MkRes { let v: BTreeMap<u32, String> = (0..lim(n, 16)).map(|_| (r.next() as u32, el_str(r, 10))).collect(); mk_complex(r, v) }
+fn mk_cx_btreeset(r: &mut Rng, n: usize) -> MkRes { let v: BTreeSet<u64> = (0..lim(n, 32)).map(|_| r.next()).collect(); mk_complex(r, v) }
 fn mk_cx_batch(r: &mut Rng, n: usize) -> MkRes {
-    let (cfg, name) = cx_cfg(r); let ser = ComplexTypeSerializer::new(cfg); let vs: Vec<(u32, String)> = (0..1 + n.min(10)).map(|_| (r.next() as u32, rstr(r, 8))).collect(); let bytes = ser.serialize_batch(&vs).map_err(e2s)?;
+    let (cfg, name) = cx_cfg(r); let ser = ComplexTypeSerializer::new(cfg); let vs: Vec<(u32, String)> = (0..1 + lim(n, 10)).map(|_| (r.next() as u32, el_str(r, 8))).collect(); let bytes = ser.serialize_batch(&vs).map_err(e2s)?;
     valid(bytes, 0, format!("config:{name} batch:{}", vs.len()), Box::new(move |b, _| Ok(ser.deserialize_batch::<(u32, String)>(b).is_ok())))
 }
 fn mk_smart<T: SerializableType + 'static, P: SmartPtrSerialize<T> + 'static>(p: P) -> MkRes {
     let ser = SmartPtrSerializer::default(); let bytes = ser.serialize_to_bytes::<T, P>(&p).map_err(e2s)?;
     valid(bytes, 0, String::new(), Box::new(move |b, _| Ok(ser.deserialize_from_bytes::<T, P>(b).is_ok())))
 }
-fn mk_sp_box(r: &mut Rng, n: usize) -> MkRes { mk_smart::<String, Box<String>>(Box::new(rstr(r, n.min(60)))) }
-fn mk_sp_optbox(r: &mut Rng, n: usize) -> MkRes { let v: Option<Box<Vec<u32>>> = if r.chance(1, 6) { None } else { Some(Box::new((0..n.min(30)).map(|_| r.next() as u32).collect())) }; mk_smart::<Vec<u32>, Option<Box<Vec<u32>>>>(v) }
-fn mk_sp_rc(r: &mut Rng, n: usize) -> MkRes { let s = Rc::new(rstr(r, 10)); let v: Rc<Vec<Rc<String>>> = Rc::new((0..1 + n.min(8)).map(|i| if i % 2 == 0 { s.clone() } else { Rc::new(rstr(r, 6)) }).collect()); mk_smart::<Vec<Rc<String>>, Rc<Vec<Rc<String>>>>(v) }
-fn mk_sp_arc(r: &mut Rng, n: usize) -> MkRes { let v: Arc<Vec<String>> = Arc::new((0..n.min(10)).map(|_| rstr(r, 9)).collect()); mk_smart::<Vec<String>, Arc<Vec<String>>>(v) }
+fn mk_sp_box(r: &mut Rng, n: usize) -> MkRes { mk_smart::<String, Box<String>>(Box::new(rstr(r, lim(n, 60)))) }
+fn mk_sp_optbox(r: &mut Rng, n: usize) -> MkRes { let v: Option<Box<Vec<u32>>> = if r.chance(1, 6) { None } else { Some(Box::new((0..lim(n, 30)).map(|_| r.next() as u32).collect())) }; mk_smart::<Vec<u32>, Option<Box<Vec<u32>>>>(v) }
+fn mk_sp_rc(r: &mut Rng, n: usize) -> MkRes { let s = Rc::new(rstr(r, 10)); let v: Rc<Vec<Rc<String>>> = Rc::new((0..1 + lim(n, 8)).map(|i| if i % 2 == 0 { s.clone() } else { Rc::new(el_str(r, 6)) }).collect()); mk_smart::<Vec<Rc<String>>, Rc<Vec<Rc<String>>>>(v) }
+fn mk_sp_arc(r: &mut Rng, n: usize) -> MkRes { let v: Arc<Vec<String>> = Arc::new((0..lim(n, 10)).map(|_| el_str(r, 9)).collect()); mk_smart::<Vec<String>, Arc<Vec<String>>>(v) }
 fn di_script<I: DataInput>(i: &mut I) -> bool {
     let mut okc = 0;
     if i.read_length_prefixed_bytes().is_ok() { okc += 1; } if i.read_length_prefixed_string().is_ok() { okc += 1; } if i.read_var_int().is_ok() { okc += 1; }
@@ -249,7 +330,7 @@ fn di_script<I: DataInput>(i: &mut I) -> bool {
     okc == 8
 }
 fn di_bytes(r: &mut Rng, n: usize) -> Result<Vec<u8>, String> {
-    let mut o = VecDataOutput::new(); let blob = r.bytes(n.min(200)); let s = rstr(r, n.min(30)); let v = r.bytes(n.min(17)); let skn = r.usize_below(9); let sk = r.bytes(skn); let s2 = rstr(r, 5);
+    let mut o = VecDataOutput::new(); let blob = r.bytes(lim(n, 200)); let s = rstr(r, lim(n / 4, 30)); let v = r.bytes(n.min(17)); let skn = r.usize_below(9); let sk = r.bytes(skn); let s2 = rstr(r, 5);
     o.write_length_prefixed_bytes(&blob).map_err(e2s)?; o.write_length_prefixed_string(&s).map_err(e2s)?; o.write_var_int(r.next() >> r.below(64)).map_err(e2s)?;
     o.write_u32(v.len() as u32).map_err(e2s)?; o.write_bytes(&v).map_err(e2s)?; o.write_u16(r.next() as u16).map_err(e2s)?; o.write_u64(r.next()).map_err(e2s)?;
     o.write_var_int(sk.len() as u64).map_err(e2s)?; o.write_bytes(&sk).map_err(e2s)?; o.write_u8(s2.len() as u8).map_err(e2s)?; o.write_bytes(s2.as_bytes()).map_err(e2s)?;
@@ -490,6 +571,31 @@ fn tags_for(id: &str, b: &[u8], explen: usize, out: &mut BTreeSet<&'static str>)
     if id.starts_with("varint/") { if let Some((cnt, n)) = leb(b) { if cnt > (b.len() - n) as u64 && cnt > 1 << 20 { out.insert("count_gt_input"); } } }
 }
 
+/// Large-input families. `huge_trunc`: truncation at / around every 64 KiB chunk boundary, at 2^20 +- 1, near the end; substitution at the
+/// chunk boundaries; appended garbage incl. one whole extra chunk. `huge_field`: every 2/4/8-byte field of the header region (offsets 0..24, every
+/// 8th offset up to 136, and 1024) maximised, and the 2/4-byte fields +-1 (count one more / one fewer than the elements present), LEB128 prefixes extended.
+fn build_huge_mutants(c: &mut Case, tg: &Tgt, fam: &str, v: &Valid, cap: usize) -> Vec<Mutant> {
+    let base = &v.bytes; let l = base.len(); let x = v.explen; let r = &mut c.rng; let mut out = Vec::new();
+    if fam == "huge_trunc" {
+        let mut ks: BTreeSet<usize> = BTreeSet::new();
+        for m in 1..=(l / 65536).min(6) { for d in [-1i64, 0, 1, 4, 8, 9] { let k = (m * 65536) as i64 + d; if k > 0 { ks.insert(k as usize); } } }
+        for k in [65551usize, 70001, 131074, (1 << 20) - 1, 1 << 20, (1 << 20) + 1, l / 2, l.saturating_sub(65536), l.saturating_sub(65537), l.saturating_sub(4097), l.saturating_sub(2), l.saturating_sub(1)] { ks.insert(k); }
+        for _ in 0..8 { ks.insert(r.usize_below(l.max(1))); }
+        for k in ks { if k < l { out.push(Mutant { mu: Mu::Trunc(k), explen: x }); } }
+        let mut ps: Vec<usize> = vec![65535, 65536, 65537, 131071, 131072, l.saturating_sub(1)]; for _ in 0..12 { ps.push(r.usize_below(l.max(1))); }
+        for p in ps { if p < l { let b = base[p]; for val in if tg.text { [b'=', b' ', b ^ 1] } else { [0x00, 0xff, b ^ 0x80] } { if val != b { out.push(Mutant { mu: Mu::Subst(p, val), explen: x }); } } } }
+        for g in [r.bytes(1), r.bytes(9), vec![0u8; 65536], r.bytes(65537)] { out.push(Mutant { mu: Mu::Append(g), explen: x }); }
+    } else {
+        let mut offs: Vec<usize> = (0..24).collect(); offs.extend((32..=136).step_by(8)); offs.push(1024);
+        for &off in &offs { for w in [2usize, 4, 8] { if off + w > l || (w == 2 && off >= 8) { continue; }
+            for val in [u64::MAX, 0x7fff_ffff_ffff_ffffu64 >> (64 - 8 * w)] { out.push(Mutant { mu: Mu::Field { off, w: w as u8, val }, explen: x }); }
+            if w <= 4 && off < 16 { let mut a = [0u8; 8]; a[..w].copy_from_slice(&base[off..off + w]); let cur = u64::from_le_bytes(a); for val in [cur.wrapping_add(1), cur.wrapping_sub(1), cur.wrapping_add(65536)] { out.push(Mutant { mu: Mu::Field { off, w: w as u8, val }, explen: x }); } } } }
+        for off in 0..6.min(l) { out.push(Mutant { mu: Mu::Subst(off, base[off] | 0x80), explen: x }); out.push(Mutant { mu: Mu::Subst(off, 0xff), explen: x }); }
+    }
+    if out.len() > cap { r.shuffle(&mut out); out.truncate(cap); }
+    out.insert(0, Mutant { mu: Mu::Id, explen: x }); out
+}
+
 // ---------------------------------------------------------------------------------------------
 // execution
 struct FailRec { i: usize, class: String, detail: String }
@@ -603,11 +709,14 @@ fn use_fork() -> bool { !cfg!(miri) && std::env::var("ZV_C15_INPROC").map(|v| v 
 
 /// One case: valid encoding (or parser context) + the mutant family; verdict from all parser calls.
 fn run_family(c: &mut Case, tg: &Tgt, fam: &str, idx: u64, size: usize, cap: usize, max_deaths: u64, asan: bool) -> Res {
-    let size = size.min(tg.max_size);
+    let is_huge = fam.starts_with("huge_");
+    let size = if is_huge { size } else { size.min(tg.max_size) };
+    if is_huge { let sh = c.rng.below(5) as u32; HUGE_MODE.with(|h| h.set(Some(sh))); }
     let mk = tg.make; let mut made = None; let mut why = String::new();
     for _attempt in 0..4 { // an encoder may refuse a payload family (e.g. FSE on single-symbol data): try another one
         match catch(|| { let mut r = c.rng.fork(); mk(&mut r, size) }) { Ok(Ok(v)) => { made = Some(v); break; } Ok(Err(e)) => why = e, Err(p) => why = format!("encoder panicked at {} ({})", p.loc, p.msg) }
     }
+    HUGE_MODE.with(|h| h.set(None));
     let mut v = match made { Some(v) => v, None => return ctx::inconclusive(format!("no valid encoding for size {size}: {why}")) };
     c.input("valid", &v.bytes); c.input_str("payload", &v.info); if tg.explen { c.input_str("true_len", &v.explen.to_string()); }
     c.tag(fam);
@@ -633,6 +742,7 @@ fn run_family(c: &mut Case, tg: &Tgt, fam: &str, idx: u64, size: usize, cap: usi
         }
         "directed" => { let big = catch(|| { let mut r = c.rng.fork(); mk(&mut r, 600.min(tg.max_size)) }).ok().and_then(|r| r.ok()).map(|s| s.bytes).unwrap_or_default();
             let mut out = vec![Mutant { mu: Mu::Id, explen: v.explen }]; for b in directed(tg.id, &big, &mut c.rng) { c.hash_more(&b); out.push(Mutant { mu: Mu::Replace(b), explen: v.explen }); } out }
+        "huge_trunc" | "huge_field" => { c.note("huge_valid_len", v.bytes.len() as u64); build_huge_mutants(c, tg, fam, &v, cap) }
         "tail" => { let second = catch(|| { let mut r = c.rng.fork(); mk(&mut r, size + 3) }).ok().and_then(|r| r.ok()).map(|s| s.bytes); build_mutants(c, tg, fam, &v, second.as_deref(), cap) }
         _ => build_mutants(c, tg, fam, &v, None, cap),
     };
@@ -651,6 +761,15 @@ fn run_family(c: &mut Case, tg: &Tgt, fam: &str, idx: u64, size: usize, cap: usi
     Err(Fail { oracle: chosen, detail: format!("{} of {} inputs refuted [{}]; witness (input #{}): {}", o.fails.len(), o.calls, summary.join(", "), f.i, f.detail) })
 }
 
+/// payload bytes / element counts of the large-input families: just above 2^16, above 2^17, 10^5+, 2^20+1 (only where the target's cap allows)
+const HUGE_SIZES: [usize; 6] = [65_551, 70_001, 200_000, 65_537, 131_073, 1_048_577];
+/// per-target upper bound of the large-input size (None = no large-input cases: nothing length-dependent is parsed, or one call is too slow)
+fn huge_max(id: &str) -> Option<usize> {
+    if id == "huff_tree_deser" || id == "complex/array" || id == "cf/none" { return None; }
+    if id == "sadict_deser" { return None; } // building the dictionary and every deserialize (suffix array rebuild) cost 0.5-1 s per call on > 64 KiB texts with long runs
+    Some(if id.starts_with("huff_decode_x") || id.starts_with("ctxhuff_de") || id.starts_with("pazip") || id.starts_with("simdlz77") || id == "sadict_deser" || id.starts_with("complex/") || id.starts_with("smartptr/") || id == "dict_deser" || id == "decode_matches" { 70_001 }
+        else if id.starts_with("mmap_vec_open") || id == "reorder_map_open" || id.starts_with("varint") { 200_000 } else { 1_048_577 })
+}
 const SIZES_Q: [usize; 10] = [1, 2, 3, 5, 8, 13, 24, 40, 100, 600];
 const SIZES_T: [usize; 16] = [1, 2, 3, 4, 6, 9, 16, 33, 64, 100, 200, 400, 1000, 2000, 3000, 150];
 
@@ -674,6 +793,13 @@ pub fn run(ctx: &mut Ctx) {
         ctx.case(tg.id, "directed", 0, |c| run_family(c, tg, "directed", 0, 24, cap, max_deaths * 4, asan));
         for idx in 0..=small_chunks as u64 { ctx.case(tg.id, "small", idx, |c| run_family(c, tg, "small", idx, 24, cap.min(1024), max_deaths, asan)); }
         for idx in 0..n_rand as u64 { ctx.case(tg.id, "rand", idx, |c| run_family(c, tg, "rand", idx, 40, cap, max_deaths, asan)); }
+        // large inputs: valid encodings of > 64 KiB payloads / > 65536 elements (sizes rotate with target and index; shape is seeded per case)
+        if let Some(hmax) = huge_max(tg.id) {
+            let ti = tgs.iter().position(|t| t.id == tg.id).unwrap_or(0); let hcap = (if tg.id == "sadict_deser" { 6 } else if tg.id == "dict_deser" || tg.id.starts_with("simdlz77") { 30 } else if tg.id.starts_with("complex/") || tg.id.starts_with("smartptr/") || tg.id.starts_with("cf/") { 60 } else { match tg.cost { Cost::Fast => 160, Cost::Med => 60, Cost::Slow => 10 } }) * tg.share.max(40) / 100 * if thorough { 3 } else { 1 };
+            for idx in 0..ctx.n(1, 12) as u64 { for (fi, fam) in ["huge_trunc", "huge_field"].iter().enumerate() { if tg.text && fi == 1 { continue; }
+                let size = HUGE_SIZES[(ti + idx as usize + fi) % HUGE_SIZES.len()].min(hmax);
+                ctx.case(tg.id, fam, idx, |c| run_family(c, tg, fam, idx, size, hcap, 2, asan)); } }
+        }
     }
     let _ = std::fs::remove_dir_all(tmp_dir());
 }
